@@ -20,13 +20,13 @@ func TestC19(t *testing.T) {
 			}
 			c.MaxDocSize = 0
 		},
-		// one history in ten starts with 17-40 documents in one collection: more rows than any read-ahead
+		// one history in ten starts with 17-230 documents in one collection: more rows than any read-ahead
 		// buffer, page or batch a query path might use
 		Prefix: func(rt *rapid.T, r *Run) []Op {
 			if !chance(rt, 10, "c19.bulk") {
 				return nil
 			}
-			return []Op{{K: "BulkSet", C: pickColl(rt, r.W, "c19.bulkcoll"), Arg: map[string]any{"n": pick(rt, []int{17, 18, 33, 40}, "c19.bulkn")}}}
+			return []Op{{K: "BulkSet", C: pickColl(rt, r.W, "c19.bulkcoll"), Arg: map[string]any{"n": pick(rt, []int{17, 18, 33, 40, 120, 230}, "c19.bulkn")}}}
 		},
 		Extra: []ExtraAction{{Name: "Query", Weight: 14, Gen: func(rt *rapid.T, r *Run) (Op, bool) {
 			op, ok := genQuery(rt, r)
